@@ -7,6 +7,7 @@ pub mod c05;
 pub mod c07;
 pub mod c08;
 pub mod c09;
+pub mod c10;
 pub mod c11;
 pub mod c12;
 pub mod c14;
@@ -15,6 +16,7 @@ pub mod c16;
 pub mod c17;
 pub mod c18;
 pub mod c19;
+pub mod c20;
 pub mod c21;
 pub mod c22;
 pub mod c23;
@@ -35,6 +37,7 @@ pub fn all() -> Vec<PropertyDef> {
         c07::def(),
         c08::def(),
         c09::def(),
+        c10::def(),
         c11::def(),
         c12::def(),
         c14::def(),
@@ -43,6 +46,7 @@ pub fn all() -> Vec<PropertyDef> {
         c17::def(),
         c18::def(),
         c19::def(),
+        c20::def(),
         c21::def(),
         c22::def(),
         c23::def(),
@@ -59,6 +63,7 @@ pub fn all() -> Vec<PropertyDef> {
 pub fn worker_dispatch(kind: &str, payload: &[u8]) -> Vec<u8> {
     match kind {
         "c18" => c18::worker(payload),
+        "c20" => c20::worker(payload),
         _ => b"unknown worker kind".to_vec(),
     }
 }
